@@ -201,6 +201,13 @@ Proof. exact finish_sound. Qed.
 Print Assumptions C16_finish_sound.
 
 (* ---- decks whose cells may carry TRCL (what the correspondence executes) -- *)
+(* [ids] is the order in which the converter walks the Python set of implicit
+   surfaces 1000 * cell + surface.  Every statement below is for ANY list: no
+   theorem depends on that order ([run_t] is the ascending walk; the
+   correspondence feeds the order Python really used).  What does depend on it
+   in the written file: the order of the ALL_COMPLETE lines of two implicit
+   surfaces, and which fresh id each auxiliary sub-surface gets when several
+   implicit surfaces exist and one is a collection. *)
 
 (* [run] is [run_t] on decks whose cells are all converted and carry no TRCL,
    so the statements about [run] above are statements about [run_t] *)
@@ -214,10 +221,10 @@ Print Assumptions C16_run_t_plain.
    implicit surfaces 1000 * cell + surface, then the copies made for the
    literals of cells with TRCL; all keys distinct; every addition carries the
    flag (and part count) of a parsed card *)
-Theorem C16_expanded_table :
+Theorem C16_expanded_table : forall (ids : list N),
   forall (t : table) (cells : list (bool * cell)) (t' : table) (cs : list tcell),
   NoDup (map fst t) ->
-  expand_table cs t = Ok (cells, t') ->
+  expand_table_with ids cs t = Ok (cells, t') ->
   NoDup (map fst t') /\
   (forall k e, In (k, e) t -> In (k, e) t') /\
   (forall k e, In (k, e) t' -> inherits t e).
@@ -227,14 +234,14 @@ Print Assumptions C16_expanded_table.
 (* the main statement with TRCL, no guard, for every flagged entry of the
    expanded dictionary (a parsed card or the copy made for a literal of a cell
    with TRCL) that bounds a converted cell that survives *)
-Theorem C16_bc_designates_present_same_locus_trcl :
+Theorem C16_bc_designates_present_same_locus_trcl : forall (ids : list N),
   forall (cfg : config) (cards : list scard) (tcells : list tcell) (t : table)
          (cells : list (bool * cell)) (t' : table)
          (surfs : list (N * N)) (bcs : list (kind * N)) (k : N) (e : entry),
   skip_bc cfg = false ->
   parse_cards cards [] = Ok t ->
-  expand_table tcells t = Ok (cells, t') ->
-  run_t cfg cards tcells = Ok (surfs, bcs) ->
+  expand_table_with ids tcells t = Ok (cells, t') ->
+  run_t_with ids cfg cards tcells = Ok (surfs, bcs) ->
   In (k, e) t' -> (e_flag e = "*" \/ e_flag e = "+") ->
   (exists c, In c (converted cells) /\
              survives (negb (skip_dedup cfg)) (number_items t') (matching_of t') c /\
@@ -244,14 +251,14 @@ Theorem C16_bc_designates_present_same_locus_trcl :
 Proof. exact bc_designates_present_same_locus_trcl. Qed.
 Print Assumptions C16_bc_designates_present_same_locus_trcl.
 
-Theorem C16_bc_entries_designate_written_trcl :
+Theorem C16_bc_entries_designate_written_trcl : forall (ids : list N),
   forall (cfg : config) (cards : list scard) (tcells : list tcell) (t : table)
          (cells : list (bool * cell)) (t' : table)
          (surfs : list (N * N)) (bcs : list (kind * N)),
   skip_bc cfg = false ->
   parse_cards cards [] = Ok t ->
-  expand_table tcells t = Ok (cells, t') ->
-  run_t cfg cards tcells = Ok (surfs, bcs) ->
+  expand_table_with ids tcells t = Ok (cells, t') ->
+  run_t_with ids cfg cards tcells = Ok (surfs, bcs) ->
   NoDup (map snd bcs) /\
   forall kd k', In (kd, k') bcs ->
     exists k e, In (k, e) t' /\ inherits t e /\ e_flag e <> "" /\
@@ -260,65 +267,65 @@ Theorem C16_bc_entries_designate_written_trcl :
 Proof. exact bc_entries_designate_written_trcl. Qed.
 Print Assumptions C16_bc_entries_designate_written_trcl.
 
-Theorem C16_conflicting_flags_rejected_trcl :
+Theorem C16_conflicting_flags_rejected_trcl : forall (ids : list N),
   forall (cfg : config) (cards : list scard) (tcells : list tcell) (t : table)
          (cells : list (bool * cell)) (t' : table) (surfs : list (N * N))
          (k1 : N) (e1 : entry) (k2 : N) (e2 : entry),
   skip_bc cfg = false ->
   parse_cards cards [] = Ok t -> proper t ->
-  expand_table tcells t = Ok (cells, t') ->
+  expand_table_with ids tcells t = Ok (cells, t') ->
   geometry (negb (skip_dedup cfg)) t' (converted cells) = Ok surfs ->
   In (k1, e1) t' -> e_flag e1 = "*" -> In (k2, e2) t' -> e_flag e2 = "+" ->
   rep (negb (skip_dedup cfg)) (number_items t') k1 =
     rep (negb (skip_dedup cfg)) (number_items t') k2 ->
   In (rep (negb (skip_dedup cfg)) (number_items t') k1) (map fst surfs) ->
-  run_t cfg cards tcells = Err EValue.
+  run_t_with ids cfg cards tcells = Err EValue.
 Proof. exact conflicting_flags_rejected_trcl. Qed.
 Print Assumptions C16_conflicting_flags_rejected_trcl.
 
 (* every literal of a cell with TRCL gets a copy in the dictionary that
    carries the flag of the surface it names and the transformed descriptor *)
-Theorem C16_trcl_copy_in_table :
+Theorem C16_trcl_copy_in_table : forall (ids : list N),
   forall (cfg : config) (cards : list scard) (tcells : list tcell) (out : output)
          (c : tcell) (l : lit),
-  run_t cfg cards tcells = Ok out ->
+  run_t_with ids cfg cards tcells = Ok out ->
   In c tcells -> tc_trcl c = true -> In l (tc_lits c) ->
   exists t cells t' e k',
     parse_cards cards [] = Ok t /\
-    expand_table tcells t = Ok (cells, t') /\
+    expand_table_with ids tcells t = Ok (cells, t') /\
     dict_get (Z.abs_N (l_z l)) t' = Some e /\
     In (k', mkE (e_flag e) (e_mcnp e) (l_cls l) (l_aux l) (l_sides l)) t'.
 Proof. exact trcl_copy_in_table. Qed.
 Print Assumptions C16_trcl_copy_in_table.
 
-Theorem C16_bc_designates_keys_trcl :
+Theorem C16_bc_designates_keys_trcl : forall (ids : list N),
   forall (cfg : config) (cards : list scard) (tcells : list tcell) (t : table)
          (cells : list (bool * cell)) (t' : table)
          (surfs : list (N * N)) (bcs : list (kind * N)) (kd : kind) (k' : N),
   skip_bc cfg = false ->
   parse_cards cards [] = Ok t ->
-  expand_table tcells t = Ok (cells, t') ->
-  run_t cfg cards tcells = Ok (surfs, bcs) -> In (kd, k') bcs ->
+  expand_table_with ids tcells t = Ok (cells, t') ->
+  run_t_with ids cfg cards tcells = Ok (surfs, bcs) -> In (kd, k') bcs ->
   In k' (map fst t') /\ (k' <= max_key t')%N.
 Proof. exact bc_designates_keys_trcl. Qed.
 Print Assumptions C16_bc_designates_keys_trcl.
 
 (* unflagged surfaces yield none: a deck without a flagged card has no entry,
    whatever its cells and their TRCL *)
-Theorem C16_unflagged_deck_no_entries :
+Theorem C16_unflagged_deck_no_entries : forall (ids : list N),
   forall (cfg : config) (cards : list scard) (tcells : list tcell)
          (surfs : list (N * N)) (bcs : list (kind * N)),
   (forall t k e, parse_cards cards [] = Ok t -> In (k, e) t -> e_flag e = "") ->
-  run_t cfg cards tcells = Ok (surfs, bcs) -> bcs = [].
+  run_t_with ids cfg cards tcells = Ok (surfs, bcs) -> bcs = [].
 Proof. exact unflagged_deck_no_entries. Qed.
 Print Assumptions C16_unflagged_deck_no_entries.
 
 (* a flag on a macrobody stops the run, with TRCL cells too *)
-Theorem C16_macrobody_flag_stops_run_t :
+Theorem C16_macrobody_flag_stops_run_t : forall (ids : list N),
   forall (cfg : config) (cards : list scard) (tcells : list tcell) (t : table) (k : N) (e : entry),
   skip_bc cfg = false -> parse_cards cards [] = Ok t ->
   In (k, e) t -> e_flag e <> "" -> (1 < e_mcnp e)%nat ->
-  exists err, run_t cfg cards tcells = Err err.
+  exists err, run_t_with ids cfg cards tcells = Err err.
 Proof. exact macrobody_flag_stops_run_t. Qed.
 Print Assumptions C16_macrobody_flag_stops_run_t.
 
